@@ -19,7 +19,8 @@ from .world import strip_docstring
 INLINE_CLASSES = {
     "TextXError", "TextXSemanticError", "TextXSyntaxError", "TextXRegistrationError",
     "ObjCrossRef", "RefRulePosition", "MetaAttr", "ClassCrossRef", "Postponed",
-    "ReferenceResolver", "LanguageDesc", "GeneratorDesc", "PlainName",
+    "ReferenceResolver", "LanguageDesc", "GeneratorDesc", "PlainName", "ModelParams",
+    "GlobalModelRepository", "ModelRepository",
 }
 
 
@@ -144,8 +145,8 @@ class CallMixin:
             text = ast.unparse(n.func)
             sp = self.unit.calls.get(text)
             if isinstance(sp, Ext):
-                return self.ext_call(sp, None, ([pf.bound_self] if pf.bound_self is not None else []) + list(args),
-                                     kwargs, n)
+                return self.ext_call(sp, self.to_val(pf.bound_self) if pf.bound_self is not None else None,
+                                     list(args), kwargs, n)
             if isinstance(sp, str) and sp.split(".")[0] not in ("list", "dict", "set"):
                 from .contracts import REGISTRY
 
